@@ -95,6 +95,9 @@ type Program struct {
 	// ShareBias: every CP has one input and one output and several romdata variables, and later CPs
 	// are often declared with an earlier CP's code section and their own data
 	ShareBias bool `json:"share_bias,omitempty"`
+	// GlobalIOMode, when set, is written on the bmdef line ("iomode:sync|async"): the more specific
+	// iomode of every code section must still win
+	GlobalIOMode string `json:"global_iomode,omitempty"`
 }
 
 func lit(rng *rand.Rand, v uint64) string {
@@ -181,7 +184,11 @@ func (p *Program) Text() string {
 		fmt.Fprintf(&sb, "%%meta ioatt xout%d cp: %s, index:%d, type:output\n", k, last.Name, k)
 		fmt.Fprintf(&sb, "%%meta ioatt xout%d cp: bm, index:%d, type:output\n", k, k)
 	}
-	fmt.Fprintf(&sb, "%%meta bmdef global registersize:%d\n", p.Rsize)
+	if p.GlobalIOMode != "" {
+		fmt.Fprintf(&sb, "%%meta bmdef global registersize:%d, iomode:%s\n", p.Rsize, p.GlobalIOMode)
+	} else {
+		fmt.Fprintf(&sb, "%%meta bmdef global registersize:%d\n", p.Rsize)
+	}
 	return sb.String()
 }
 
@@ -258,6 +265,9 @@ func GenerateShared(rng *rand.Rand, maxLit uint64) *Program {
 
 func generate(rng *rand.Rand, sync bool, maxLit uint64, share bool) *Program {
 	p := &Program{Rsize: []int{8, 16, 32}[rng.IntN(3)], Sync: sync, Macros: map[string][]Item{}, MaxLit: maxLit, ShareBias: share}
+	if rng.IntN(4) == 0 {
+		p.GlobalIOMode = []string{"sync", "async"}[rng.IntN(2)]
+	}
 	ncp := 1
 	if sync {
 		ncp = 1 + rng.IntN(3)
